@@ -36,7 +36,10 @@ def consume(run, results, kinds, pid):
                  'pre': f['pre'], 'replay': f['replay'], 'cfg_on': f.get('cfg_on', []),
                  'null_strs_with_default': f.get('null_strs_with_default', []), 'has_raw': f.get('has_raw', False)}
             rep = f['replay'].get('reproduced')
-            if rep is True:
+            w['reach'] = f.get('reach')
+            if rep == 'unreached':
+                run.unreached.append({'obligation': ob, 'what': f['what'], 'detail': f['detail'], 'pre': f['pre'], 'byte': f.get('byte')})
+            elif rep is True:
                 run.violation(ob, w, f"{f['what']}: {f['detail']} ({f['replay'].get('diff') or f['replay'].get('sanitizer', '')[:120]})")
             elif rep is False:
                 run.harness_error(f"model does not reproduce on the real build: {ob}: {f['detail']} {str(f['replay'])[:300]}")
